@@ -15,11 +15,13 @@ claim("C02", P,
       "writer's header, a line that is neither row, comment nor blank raises, decode errors become ValueError, normal return implies every line was consumed; FileReader.__exit__ never suppresses; read_swc's repair/sort/reset dispatch; "
       "Tree.from_swc re-raises every read failure as ValueError." + BOUNDED,
       ASSUME + "regex-language facts (which texts the row pattern accepts) are NOT proved: the pattern text is pinned and the line grammar is explored by the bounded stand-in; encoding detection bounded only.", "DESIGN.md §3 C02, §9")
-claim("C03", "other",
-      "No discharged obligation is attributed to C03 itself yet: frame ('input untouched': frozen inputs) and ownership ('fresh result') obligations are proved per operation under the properties that own the operations "
-      "(C05 sort_tree/_sort_tree, C06 propagate_removal/to_sub_topology, C07 redirect_tree/cat_tree, C12 AffineTransform/TranslateOrigin, C16 smoother/resampler); "
-      "arbitrary pipelines are decided by the bounded stand-in (pipelines of length <= 3 over small trees with snapshot / np.shares_memory / well-formedness oracles after every step).",
-      ASSUME + "closure of the single-step frame/ownership contracts under sequencing is argued in DESIGN.md, not mechanised.", "DESIGN.md §3 C03, §9")
+claim("C03", P,
+      "Transforms.__call__ is proved for pipelines of ANY length over abstract member transforms satisfying the single-step contract (result well formed; the input itself or freshly allocated; nothing older written): "
+      "result well formed, shares no storage with the input unless it IS the input (Identity / empty pipeline), input untouched. The single-step clauses themselves (frame: frozen inputs; ownership: fresh result; well-formedness) "
+      "are obligations of the contracts that own the operations and are re-verified here through DEPENDS: sort_tree/_sort_tree (C05), to_subtree/get_subtree_impl/propagate_removal (C06), redirect_tree/cat_tree (C07), "
+      "AffineTransform/TranslateOrigin (C12), smoother/resampler (C16)." + BOUNDED,
+      ASSUME + "cut_tree, CutBy*, Resampler/TreeSmoother as whole-tree operations are covered by the bounded stand-in only (pipelines of length <= 3 over small trees with snapshot / np.shares_memory / well-formedness oracles).",
+      "DESIGN.md §3 C03, §9")
 claim("C04", P,
       "_traverse_dfs is proved for trees of any size and shape, any start node and arbitrary callbacks (three loops with invariants, ghost observation state): enter exactly once per subtree node and never outside, after the parent and with the parent's "
       "value; leave exactly once after all children with exactly their values in a list allocated for that call; returns the start node's value; swc_utils.traverse / Tree.traverse / Tree.Node.traverse pass nodes and values through unchanged; "
@@ -89,4 +91,3 @@ claim("C20", P,
       "save_tiff (shape (Z,X,Y,C), dtype factor for every float/unsigned pair in double precision, axes string, options), NDArrayImageStack.__init__ (three rescaling branches, class or dtype instance), TiffImageStack.__init__ "
       "(all 48 axes permutations return (X,Y,Z,C)), ToImageStack.transform/_get_samplers (bounding box covers every sphere, half-voxel offset, slice spacing and count) and the scene closure (one object per edge, containing sphere for nested ends) are proved." + BOUNDED,
       ASSUME + "tifffile, pynrrd and the sdflit sampler are compiled third-party code: assumed through recording models; the file round trip and voxel-level rasterisation are bounded only.", "DESIGN.md §3 C20, §9")
-TECHNIQUE["C03"] = TECH_B
